@@ -335,6 +335,15 @@ impl<'r> Renderer<'r> {
         if !self.sp.vary_case || !w.is_ascii() {
             return w.to_string();
         }
+        let cased = self.case_ascii(w);
+        // U+212A KELVIN SIGN is an upper-case letter whose lower case is the ASCII `k`: one more way to write a K
+        if cased.contains('K') && self.rng.chance(1, 8) {
+            return cased.replacen('K', "\u{212a}", 1);
+        }
+        cased
+    }
+
+    fn case_ascii(&mut self, w: &str) -> String {
         match self.rng.below(6) {
             0 | 1 | 2 => w.to_string(),
             3 => w.to_ascii_uppercase(),
